@@ -41,7 +41,7 @@ KINDS = ("defined", "defined", "defined", "unknown", "unknown", "len0", "len1", 
          "len256", "len1022", "len1023", "defmax", "steered", "steered", "len2-fe")
 
 
-def make_items(rng, n=None, adversarial=None):
+def make_items(rng, n=None, adversarial=None, quote=True):
     """Returns list of (kindname, bytes, payload_or_None)."""
     n = n or rng.randint(4, 22)
     items = []
@@ -56,6 +56,8 @@ def make_items(rng, n=None, adversarial=None):
         elif k < 0.85:
             if rng.random() < 0.04:
                 items.append(("ubxbig", streams.ubx_big(rng), None))
+            elif quote and rng.random() < 0.12:
+                items.append(("ubx", streams.ubx_quote(rng), None))
             else:
                 items.append(("ubx", streams.ubx(rng, 4096 if rng.random() < 0.1 else 200, dense=rng.random() < 0.5), None))
         else:
@@ -210,7 +212,7 @@ def run_case(ctx, items, backend, mode, bparam):
         from vf.checks import c12
 
         rdr = RTCMReader(stream, validate=1, quitonerror=mode, bufsize=bparam.get("bufsize", 4096),
-                         errorhandler=(lambda e: None),
+                         errorhandler=(lambda e: None), labelmsm=(1, 2, True)[len(data) % 3],
                          encoding=c12.ENC[bparam.get("how")] if bparam.get("chunked") else 0)
         if mode in (0, 1):
             try:
